@@ -603,11 +603,14 @@ def run_plain(sc):
         if calls[0] > budget:
             raise traced.BudgetExceeded("more than %d right-hand-side evaluations" % budget)
         if fault_at[0] is not None and opcalls[0] == fault_at[0]:
+            if fault_exc[0] == "KeyboardInterrupt":
+                raise KeyboardInterrupt("injected")
             raise Injected("injected")
         return f1(t, y)
     calls = [0]
     opcalls = [0]
     fault_at = [None]
+    fault_exc = [None]
     y0 = np.array(sc["y0"], dtype=dt)
     kw = {}
     if sc.get("rtol") is not None:
@@ -625,11 +628,15 @@ def run_plain(sc):
                 cbs = [c for c in (make_callback(c, dt) for c in op.get("cbs", [])) if c is not None] or None
                 opcalls[0] = 0
                 fault_at[0] = op.get("fault")
+                fault_exc[0] = op.get("exc")
                 try:
                     with traced.wall_clock(float(sc.get("wall_limit", 240.0))):
                         system.integrate(t=op.get("t"), events=evs, callback=cbs)
                 except de.exception_types.FailedIntegration:
                     if fault_at[0] is None:
+                        raise
+                except KeyboardInterrupt:
+                    if fault_at[0] is None or fault_exc[0] != "KeyboardInterrupt":
                         raise
                 finally:
                     fault_at[0] = None
